@@ -2,6 +2,7 @@ package main
 
 import (
 	"encoding/json"
+	"hash/maphash"
 
 	"github.com/google/jsonschema-go/jsonschema"
 )
@@ -22,5 +23,28 @@ func init() {
 			return nil, err
 		}
 		return map[string]any{"outcome": "ok", "equal": jsonschema.Equal(x, y)}, nil
+	})
+}
+
+func init() {
+	// hash {x, y}: the internal value hash under one fresh seed (hook), and Equal
+	register("hash", func(args json.RawMessage) (any, error) {
+		var a struct{ X, Y json.RawMessage }
+		if err := json.Unmarshal(args, &a); err != nil {
+			return nil, err
+		}
+		x, err := buildAny(a.X)
+		if err != nil {
+			return nil, err
+		}
+		y, err := buildAny(a.Y)
+		if err != nil {
+			return nil, err
+		}
+		seed := maphash.MakeSeed()
+		hx, hy := jsonschema.VerifHash(seed, x), jsonschema.VerifHash(seed, y)
+		seed2 := maphash.MakeSeed()
+		hx2, hy2 := jsonschema.VerifHash(seed2, x), jsonschema.VerifHash(seed2, y)
+		return map[string]any{"outcome": "ok", "equal": jsonschema.Equal(x, y), "hash_equal": hx == hy && hx2 == hy2}, nil
 	})
 }
